@@ -229,22 +229,51 @@ def observed(wh, world, r):
             "variant": o["variant"], "raw": [o["git_dir"], o["work_dir"]]}
 
 
-def git_observed(wh, world, hc):
-    env = {"GIT_CEILING_DIRECTORIES": hc["ceil"]} if hc["ceil"] is not None else {}
-    p = git(["-C", hc["start"], "rev-parse", "--absolute-git-dir", "--show-toplevel"], cwd=hc["cwd"], env=env)
-    lines = p.stdout.decode().split("\n")[:-1]
-    err = p.stderr.decode("utf-8", "replace").strip()
-    if p.returncode == 0 and len(lines) == 2:
-        return {"found": True, "gitdir": wh.abstract(world, lines[0]), "worktree": wh.abstract(world, lines[1]), "err": ""}
-    if len(lines) == 1 and "must be run in a work tree" in err:
-        return {"found": True, "gitdir": wh.abstract(world, lines[0]), "worktree": NOPATH, "err": ""}
-    if not lines and err.startswith("fatal:"):
+def git_batch(ctx, hcs, jobs=8):
+    """`git -C start rev-parse --absolute-git-dir --show-toplevel` for many queries: shell scripts, one git process per query"""
+    import shlex
+    base = {"GIT_CONFIG_NOSYSTEM": "1", "GIT_CONFIG_GLOBAL": "/dev/null", "HOME": WORK_ROOT, "LC_ALL": "C", "PATH": os.environ.get("PATH", "")}
+    tag = len(os.listdir(ctx.work))
+    chunks = [list(range(j, len(hcs), jobs)) for j in range(jobs)]
+    procs = []
+    for j, idx in enumerate(chunks):
+        path = os.path.join(ctx.work, "gitbatch-%d-%d.sh" % (tag, j))
+        with open(path, "w") as f:
+            f.write("unset GIT_DIR GIT_WORK_TREE GIT_CEILING_DIRECTORIES\n")
+            for i in idx:
+                hc = hcs[i]
+                pre = "GIT_CEILING_DIRECTORIES=%s " % shlex.quote(hc["ceil"]) if hc["ceil"] is not None else ""
+                f.write("echo '@@ %d'; cd %s && %sgit -C %s rev-parse --absolute-git-dir --show-toplevel 2>&1; echo \"@@rc $?\"\n"
+                        % (i, shlex.quote(hc["cwd"]), pre, shlex.quote(hc["start"])))
+        procs.append(subprocess.Popen(["sh", path], env=base, stdout=subprocess.PIPE, stderr=subprocess.STDOUT, stdin=subprocess.DEVNULL))
+    res = [None] * len(hcs)
+    for pr in procs:
+        out = pr.communicate()[0].decode("utf-8", "replace")
+        for block in out.split("@@ ")[1:]:
+            head, _, rest = block.partition("\n")
+            body, _, rc = rest.rpartition("@@rc ")
+            res[int(head)] = (int(rc.strip()), [l for l in body.split("\n") if l])
+    if any(r is None for r in res):
+        raise ToolError("git batch lost results")
+    return res
+
+
+def git_parse(wh, world, rc_lines):
+    rc, lines = rc_lines
+    paths = [l for l in lines if l.startswith("/")]
+    err = " ".join(l for l in lines if not l.startswith("/"))
+    if rc == 0 and len(paths) == 2 and not err:
+        return {"found": True, "gitdir": wh.abstract(world, paths[0]), "worktree": wh.abstract(world, paths[1]), "err": ""}
+    if len(paths) == 1 and "must be run in a work tree" in err:
+        return {"found": True, "gitdir": wh.abstract(world, paths[0]), "worktree": NOPATH, "err": ""}
+    if not paths and err.startswith("fatal:"):
         return {"found": False, "gitdir": NOPATH, "worktree": NOPATH, "err": err}
-    raise ToolError("unexpected git rev-parse outcome: rc=%d out=%r err=%r" % (p.returncode, lines, err))
+    raise ToolError("unexpected git rev-parse outcome: rc=%d out=%r" % (rc, lines))
 
 
-def audit_query(ctx, wh, world, q, hc):
-    o = git_observed(wh, world, hc)
+def audit_query(ctx, wh, world, q, hc, o=None):
+    if o is None:
+        o = git_parse(wh, world, git_batch(ctx, [hc], 1)[0])
     ok = o["found"] == q["found"]
     if ok and q["found"]:
         ok = o["gitdir"] == q["gitdir"] and o["worktree"] == q["git_worktree"]
@@ -255,21 +284,18 @@ def audit_query(ctx, wh, world, q, hc):
         audit_mismatch(ctx, "Discover vs git rev-parse", {"query": hc, "git": o, "spec": {k: q[k] for k in ("found", "fatal", "how", "gitdir", "git_worktree")}})
 
 
-def classify(q, o):
+def classify(q, o, r=None):
     """stable class of a disagreement, read off the answers of the specification's defective designs"""
     if o is None:
-        return ["crash"]
+        return ["panic"]
     if o["found"] == q["found"] and o["gitdir"] == q["gitdir"]:
         return ["worktree"]
     got = o["gitdir"]
-    if got == q["bug_ceil_inclusive"]:
-        return ["ceiling-directory-examined"]
-    if got == q["bug_skip_gitfile"]:
-        return ["unusable-gitfile-skipped"]
-    if got == q["bug_both"]:
-        return ["ceiling-directory-examined", "unusable-gitfile-skipped"]
-    if got == q["bug_lexical"]:
-        return ["lexical-start"]
+    if got[:1] == ["!"]:
+        return ["reported-git-dir-does-not-exist"]
+    for name in ("ceiling_directory_examined", "unusable_gitfile_skipped", "ceiling_and_gitfile", "dotgit_start_skips_level", "lexical_start"):
+        if got == q["bugs"][name]:
+            return [name]
     return ["other"]
 
 
@@ -323,15 +349,16 @@ def run_gen(ctx, binary, wh, tmpl):
         for q in c["queries"]:
             flat.append((ci, q, hcase(wh, worlds[ci], q)))
     results = ctx.harness(binary, [hc for _, _, hc in flat], timeout=3000)
+    ctx.log("executed %d queries" % len(flat))
 
     # binding C
-    every = 1 if ctx.thorough else 2
-    sel = [x for i, x in enumerate(flat) if i % every == 0 or x[1]["ceil"]]
+    # (process creation is slow here: the audit takes a stride through the sorted queries)
+    want = 6000 if ctx.thorough else 350
+    every = max(1, len(flat) // want)
+    sel = [x for i, x in enumerate(flat) if i % every == 0]
 
-    def aud(x):
-        audit_query(ctx, wh, worlds[x[0]], x[1], x[2])
-    with concurrent.futures.ThreadPoolExecutor(12) as ex:
-        list(ex.map(aud, sel))
+    for x, rl in zip(sel, git_batch(ctx, [x[2] for x in sel])):
+        audit_query(ctx, wh, worlds[x[0]], x[1], x[2], git_parse(wh, worlds[x[0]], rl))
     ctx.log("audit: git rev-parse agreed with the specification on %d queries" % len(sel))
     ctx.cov["git_audited"] = len(sel)
 
@@ -344,7 +371,7 @@ def run_gen(ctx, binary, wh, tmpl):
         if not agrees(q, o):
             cl = classify(q, o)
             rec = {"kind": "gen", "classes": cl, "case": {"kp": c["kp"], "kq": c["kq"], "query": q},
-                   "shown": show_query(wh, worlds[ci], q), "observed": o,
+                   "shown": show_query(wh, worlds[ci], q), "observed": o, "panic": re.sub(r"/verif/\.work/[^/]+/[^/]+", "W", r.get("panic", ""))[:160],
                    "expected": {k: q[k] for k in ("found", "fatal", "gitdir", "gix_worktree")}}
             bad.setdefault(tuple(cl), []).append(rec)
     # one (smallest) record per class first, so that every distinct disagreement is reported
@@ -449,8 +476,7 @@ def run_random(ctx, binary, wh, tmpl, nworlds, nq):
         queries.append(random_queries(ctx, wh, w, fs, nq))
     flat = [(wi, q, hcase(wh, worlds[wi], q)) for wi in range(nworlds) for q in queries[wi]]
     results = ctx.harness(binary, [hc for _, _, hc in flat], timeout=3000)
-    with concurrent.futures.ThreadPoolExecutor(12) as ex:
-        gits = list(ex.map(lambda x: git_observed(wh, worlds[x[0]], x[2]), flat))
+    gits = [git_parse(wh, worlds[x[0]], rl) for x, rl in zip(flat, git_batch(ctx, [x[2] for x in flat]))]
 
     def events(obs, per_query=False, only=None):
         evs, owner = [], []
@@ -484,8 +510,7 @@ def run_random(ctx, binary, wh, tmpl, nworlds, nq):
     for (wi, q, hc), r in zip(flat, results):
         o = observed(wh, worlds[wi], r)
         if o is None:
-            ctx.violation({"kind": "random", "classes": ["crash"], "case": {"recipe": recipes[wi], "query": q}, "shown": hc, "result": r})
-            o = {"found": False, "gitdir": NOPATH, "worktree": NOPATH}
+            o = {"found": True, "gitdir": ["!", "panic"], "worktree": NOPATH, "panic": r.get("panic", str(r))[:160]}
         obs.append(o)
     evs, owner = events(obs)
     rej = ctx.tlc_trace("worktree", "Discover_Trace", evs, consts={"Who": '"gix"'})
@@ -495,18 +520,19 @@ def run_random(ctx, binary, wh, tmpl, nworlds, nq):
         r2 = ctx.tlc_trace("worktree", "Discover_Trace", evs2, consts={"Who": '"gix"'})
         # classification by the specification's defective designs: which switch explains the observation
         expl = {}
-        for name, sw in (("ceiling-directory-examined", {"BugIncl": "TRUE"}), ("unusable-gitfile-skipped", {"BugSkip": "TRUE"}),
-                         ("ceiling-directory-examined+unusable-gitfile-skipped", {"BugIncl": "TRUE", "BugSkip": "TRUE"})):
+        for name, sw in (("ceiling_directory_examined", {"BugIncl": "TRUE"}), ("unusable_gitfile_skipped", {"BugSkip": "TRUE"}),
+                         ("ceiling_and_gitfile", {"BugIncl": "TRUE", "BugSkip": "TRUE"}),
+                         ("dotgit_start_skips_level", {"BugIncl": "TRUE", "BugSkip": "TRUE", "BugDotGit": "TRUE"})):
             sub = [evs2[i] for i in r2]
             rr = set(ctx.tlc_trace("worktree", "Discover_Trace", sub, consts=dict({"Who": '"gix"'}, **sw))) if sub else set()
             for j, i in enumerate(r2):
                 if j not in rr and i not in expl:
-                    expl[i] = name.split("+")
+                    expl[i] = [name]
         seen = {}
         for i in r2:
             k = own2[i]
             wi, q, hc = flat[k]
-            cl = expl.get(i, ["other"])
+            cl = expl.get(i, ["other"]) if "panic" not in obs[k] else ["panic"]
             rec = {"kind": "random", "classes": cl, "case": {"recipe": recipes[wi], "query": q},
                    "shown": {a: (b.replace(worlds[wi], "W") if isinstance(b, str) else b) for a, b in hc.items()},
                    "observed": obs[k], "git": gits[k]}
@@ -525,7 +551,7 @@ def run(ctx):
     wh = Where(ctx)
     tmpl = make_template(ctx)
     nw, nq = run_gen(ctx, binary, wh, tmpl)
-    rw, rq = run_random(ctx, binary, wh, tmpl, 60 if not ctx.thorough else 400, 16 if not ctx.thorough else 24)
+    rw, rq = run_random(ctx, binary, wh, tmpl, 24 if not ctx.thorough else 300, 12 if not ctx.thorough else 20)
     ctx.cov["exhaustive"] = True
     ctx.cov["rule"] = ("A: %d worlds (kind at p x kind at q over the %s kind alphabet) x every start directory x spellings x ceiling lists = %d "
                        "queries, exhaustive for Discover_Gen; B: %d seeded random worlds with %d queries judged by Discover_Trace. "
@@ -567,7 +593,7 @@ def replay(ctx, rec):
     q = c["query"]
     hc = hcase(wh, world, q)
     o = observed(wh, world, ctx.harness(binary, [hc])[0])
-    gi = git_observed(wh, world, hc)
+    gi = git_parse(wh, world, git_batch(ctx, [hc], 1)[0])
     ev = lambda x: [{"fs": fs, "queries": [dict(q, found=x["found"], gitdir=x["gitdir"], worktree=x["worktree"])]}]
     if ctx.tlc_trace("worktree", "Discover_Trace", ev(gi), consts={"Who": '"git"'}):
         audit_mismatch(ctx, "Discover_Trace (git) on replay", {"query": hc, "git": gi})
